@@ -146,3 +146,26 @@ Definition law_cmp (c lt gt : outcome) : bool :=
   | Some z, Some l, Some g => Bool.eqb (z <? 0) l && Bool.eqb (0 <? z) g
   | _, _, _ => false
   end.
+
+(* ---- the operand-kind pairs on which a coherence law FAILS on the current code (each one is a
+   recorded known finding, demonstrated on the implementation by checks/C03.py); the law
+   theorems are proved on the complement *)
+Definition eq_sym_known (a b : ty) : bool :=
+  match a, b with
+  | TNull, TBool | TBool, TNull | TNull, TInt | TInt, TNull | TNull, TFloat | TFloat, TNull
+  | TNull, TStr | TStr, TNull
+  | TBool, TInt | TInt, TBool | TBool, TFloat | TFloat, TBool | TBool, TStr | TStr, TBool
+  | TBool, TArr | TArr, TBool | TBool, TObj | TObj, TBool | TBool, TCls | TCls, TBool
+  | TInt, TStr | TStr, TInt | TFloat, TStr | TStr, TFloat
+  | TStr, TArr | TArr, TStr | TStr, TObj | TObj, TStr | TStr, TCls | TCls, TStr => true
+  | _, _ => false
+  end.
+Definition cmp_known (a b : ty) : bool :=
+  match a, b with
+  | TNull, TNull => false
+  | TNull, _ | _, TNull => true
+  | TFloat, TStr => true
+  | TStr, TStr => false
+  | TStr, _ => true
+  | _, _ => false
+  end.
